@@ -37,6 +37,13 @@ class StabWorld(ip.World):
             return ip.ok(ip.Str(a.tag))
         return ip.ok(ip.Str(("f", n, a.tag)))
 
+    def str_variant(self, st, v, rv):
+        # the Cow variant (Borrowed / Owned) of a string is independent of its content: both are possible
+        n = st.ext.get("calls", 0)
+        ans = st.choose(("cow-variant", n, v.tag), ["Borrowed", "Owned"])
+        st.emit(("inspects-cow-variant", n))
+        return 0 if ans == "Borrowed" else 1
+
     def str_eq(self, st, a, b):
         if not (isinstance(a, ip.Str) and isinstance(b, ip.Str)):
             raise ip.AnalysisError("string comparison of %r and %r" % (a, b))
@@ -122,6 +129,9 @@ def run(tier):
                 if tag == res[1]:
                     res = ("Ok", "arg%d" % n)
         exp = contract(seq)
+        variants = [v for k, v in o.state.log if isinstance(k, tuple) and k[0] == "cow-variant"]
+        if variants:
+            name = name + " [f returned Cow::%s]" % "/".join(variants)
         seen[seq] = (len(calls), res)
         if exp is None:
             rep.ob("contract", "answers %s" % name, False, "stops after %d application(s) with %r although the string is still changing and only %d of the %d permitted applications were made" % (len(calls), res, len(calls), MAX_CALLS), b.where(), key="contract|early-stop|%s" % name, sample=True)
